@@ -117,7 +117,15 @@ func runC15(c *Ctx, w *World, r *Report) {
 					}
 				}
 				if cAdv < 0 {
-					bad = fmt.Sprintf("Offset is set to %s at %s: not Offset + 64*c (c >= 1)", L, w.InstrPos(st))
+					// count form: n leading all-ones words are counted first, then Offset += 64*n and Words = Words[n:]
+					if why, ok := compactCountForm(w, fa, st, L); ok {
+						facts = append(facts, why)
+					} else {
+						bad = fmt.Sprintf("Offset is set to %s at %s: not Offset + 64*c (c >= 1)", L, w.InstrPos(st))
+						if why != "" {
+							bad = why
+						}
+					}
 					return
 				}
 				// paired Words store in the same block
@@ -214,6 +222,11 @@ func runC15(c *Ctx, w *World, r *Report) {
 			case "Words":
 				// a Words store outside an advancing block?
 				hasOff := false
+				if sl, ok := st.Val.(*ssa.Slice); ok && sl.Low != nil {
+					if p, ok := stripConv(sl.Low).(*ssa.Phi); ok && isLoopHeaderPhi(p) {
+						return // the count form: checked together with its Offset store
+					}
+				}
 				for _, i2 := range st.Block().Instrs {
 					if s2, ok := i2.(*ssa.Store); ok {
 						if f2, ok := s2.Addr.(*ssa.FieldAddr); ok && fieldName(f2) == "Offset" {
@@ -405,6 +418,168 @@ func runC15(c *Ctx, w *World, r *Report) {
 			r.Check(trig, "R-TRIGGER", n, w.InstrPos(wr.Ins), "no call to Compact that runs whenever the stored word index is 0", "Compact is called on the edge k == 0 after the store")
 		}
 	}
+}
+
+// compactCountForm: Offset = Offset + 64*n with n a counter of leading all-ones words:
+//   n := 0; for n < len(Words) && Words[n] == 2^64-1 { n++ }; Offset += 64*n; Words = Words[n:]
+// ok=false with a non-empty reason when the shape is this one but a clause fails.
+func compactCountForm(w *World, fa *FA, st *ssa.Store, L Lin) (string, bool) {
+	var cnt *ssa.Phi
+	okForm := L.K == 0 && len(L.T) == 2
+	for atom, coef := range L.T {
+		v := fa.AtomValue(atom)
+		if _, f, ok := asFieldLoad(v); ok && f == "Offset" && coef == 1 {
+			continue
+		}
+		if p, ok := v.(*ssa.Phi); ok && coef == 64 && isLoopHeaderPhi(p) {
+			cnt = p
+			continue
+		}
+		okForm = false
+	}
+	if !okForm || cnt == nil {
+		return "", false
+	}
+	cl := fa.Lin(cnt)
+	// counter: 0, +1
+	for i, e := range cnt.Edges {
+		el := fa.Lin(e)
+		if cnt.Block().Dominates(cnt.Block().Preds[i]) {
+			if d := el.Sub(cl); !(d.IsConst() && d.K == 1) {
+				return "the count of leading all-ones words is not advanced by 1 per word", false
+			}
+			continue
+		}
+		if !(el.IsConst() && el.K == 0) {
+			return "the count of leading all-ones words does not start at 0", false
+		}
+	}
+	// the same count re-slices Words, in the block of the Offset store
+	paired := false
+	for _, i2 := range st.Block().Instrs {
+		s2, ok := i2.(*ssa.Store)
+		if !ok {
+			continue
+		}
+		f2, ok := s2.Addr.(*ssa.FieldAddr)
+		if !ok || fieldName(f2) != "Words" {
+			continue
+		}
+		sl, ok := s2.Val.(*ssa.Slice)
+		if !ok || sl.Low == nil || sl.High != nil {
+			return "Words is not re-sliced as Words[n:] in the advancing block", false
+		}
+		if _, f3, ok := asFieldLoad(sl.X); !ok || f3 != "Words" || !fa.Lin(sl.Low).Eq(cl) {
+			return fmt.Sprintf("Offset advances by 64*n but Words is re-sliced from %s at %s", fa.Lin(sl.Low), w.InstrPos(s2)), false
+		}
+		paired = true
+	}
+	if !paired {
+		return "Offset advances without dropping the same number of words in the same block", false
+	}
+	// the loop is left exactly when n reaches len(Words) or Words[n] is not all-ones
+	isLenTest := func(cond ssa.Value, pol bool) (bool, Bounds) { // (is a test n ? len(Words), what it says about n - len(Words))
+		var bd Bounds
+		D, op, ok := fa.CondRel(Cond{V: cond, Pol: pol})
+		if !ok || len(D.T) != 2 {
+			return false, bd
+		}
+		var cn, cw int64
+		for atom, coef := range D.T {
+			if fa.AtomValue(atom) == ssa.Value(cnt) {
+				cn = coef
+			} else if c, ok := asCall(fa.AtomValue(atom), "builtin len"); ok {
+				if _, f, ok := asFieldLoad(c.Common().Args[0]); ok && f == "Words" {
+					cw = coef
+				}
+			}
+		}
+		if cn == 0 || cw == 0 || cn != -cw || (cn != 1 && cn != -1) {
+			return false, bd
+		}
+		if cn < 0 {
+			D, op = D.Neg(), flipOp(op)
+		}
+		applyRel(&bd, D.K, op, "") // (n - len) + K op 0  ->  bounds on n - len
+		return true, bd
+	}
+	isOnesTest := func(cond ssa.Value, pol bool) (bool, bool, string) { // (is Words[n] ? all-ones, exit edge means different)
+		bo, ok := cond.(*ssa.BinOp)
+		if !ok || (bo.Op != token.EQL && bo.Op != token.NEQ) {
+			return false, false, ""
+		}
+		for _, side := range [2][2]ssa.Value{{bo.X, bo.Y}, {bo.Y, bo.X}} {
+			cont, idx, ok := asElemLoad(side[0])
+			if !ok {
+				continue
+			}
+			if _, f, ok := asFieldLoad(cont); !ok || f != "Words" {
+				continue
+			}
+			cv, okC := constUint64(stripConv(side[1]))
+			if !okC {
+				continue
+			}
+			if !fa.Lin(idx).Eq(cl) {
+				return true, false, "the all-ones test examines Words[" + fa.Lin(idx).String() + "], not the word being counted"
+			}
+			if cv != ^uint64(0) {
+				return true, false, fmt.Sprintf("a word is counted when it equals %#x, not 2^64-1: a 0 bit can be passed", cv)
+			}
+			return true, (bo.Op == token.EQL) != pol, ""
+		}
+		return false, false, ""
+	}
+	sawLen, sawOnes := false, false
+	for _, ex := range fa.loopExits(cnt.Block()) {
+		if ex.If == nil {
+			return "the counting loop is left unconditionally at " + w.InstrPos(ex.From.Instrs[len(ex.From.Instrs)-1]), false
+		}
+		if is, bd := isLenTest(ex.Cond, ex.Pol); is {
+			if !(bd.HasLo && bd.Lo >= 0) {
+				return "the counting loop is left on a length test other than n >= len(Words)", false
+			}
+			sawLen = true
+			continue
+		}
+		if is, good, why := isOnesTest(ex.Cond, ex.Pol); is {
+			if why != "" {
+				return why, false
+			}
+			if !good {
+				return "the counting loop is left while Words[n] is all-ones", false
+			}
+			sawOnes = true
+			continue
+		}
+		return "counting leading all-ones words additionally stops on the branch at " + w.InstrPos(ex.If) + ": Compact can stop while the first stored word is still all-ones (Offset then lags behind the first 0 bit)", false
+	}
+	if !sawLen || !sawOnes {
+		return "the counting loop must stop exactly on n >= len(Words) or Words[n] != 2^64-1", false
+	}
+	// and n advances only past an all-ones word inside Words: the increment is dominated by both tests
+	for i, e := range cnt.Edges {
+		if !cnt.Block().Dominates(cnt.Block().Preds[i]) {
+			continue
+		}
+		blk := cnt.Block().Preds[i]
+		if ins, ok := e.(ssa.Instruction); ok {
+			blk = ins.Block()
+		}
+		gl, gones := false, false
+		for _, cd := range fa.Conds(blk) {
+			if is, bd := isLenTest(cd.V, cd.Pol); is && bd.HasHi && bd.Hi <= -1 {
+				gl = true
+			}
+			if is, exitGood, why := isOnesTest(cd.V, cd.Pol); is && why == "" && !exitGood {
+				gones = true
+			}
+		}
+		if !gl || !gones {
+			return "a word is counted without n < len(Words) and Words[n] == 2^64-1 both established", false
+		}
+	}
+	return "count form: n leading all-ones words counted (n < len(Words) && Words[n] == 2^64-1), then Offset += 64*n with Words = Words[n:]", true
 }
 
 func init() {
